@@ -66,10 +66,13 @@ def strategy(tier):
     fail = st.sampled_from(["req", "rep"])
     sfail = st.sampled_from(["req", "mid", "mid", "final", "all", "first"])
     nf = st.one_of(st.integers(0, 2), st.integers(0, 2), st.integers(0, 10))
-    hs = st.builds(lambda snap, a, c, f, s, segs: {"part": "handshake", "snapshot": snap, "AVERS": a, "CURCH": c, "SFILE": f, "STATU": s, "segs": segs},
+    # one step may never be answered at all: the request must be given up after its retry budget and leave the engine
+    exhaust = st.one_of(st.none(), st.none(), st.none(), st.sampled_from(["AVERS", "CURCH", "SFILE", "STATU"]))
+    hs = st.builds(lambda snap, a, c, f, s, segs, ex: dict({"part": "handshake", "snapshot": snap, "AVERS": a, "CURCH": c, "SFILE": f, "STATU": s, "segs": segs},
+                                                           **({"exhaust": ex} if ex else {})),
                    st.integers(0, 60), st.lists(fail, max_size=10) | st.lists(fail, max_size=2), st.lists(fail, max_size=10) | st.lists(fail, max_size=2),
                    st.lists(fail, max_size=10) | st.lists(fail, max_size=2), st.lists(sfail, max_size=10) | st.lists(sfail, max_size=3),
-                   st.lists(st.integers(0, 25), min_size=1, max_size=4))
+                   st.lists(st.integers(0, 25), min_size=1, max_size=4), exhaust)
     return st.one_of(engine, engine, hs)
 
 
@@ -455,6 +458,11 @@ def _part_handshake(res, case):
         if any(k not in ok for k in kinds):
             raise InvalidCase(case)
         plan[step] = kinds
+    exhaust = case.get("exhaust")
+    if exhaust is not None:
+        if exhaust not in plan:
+            raise InvalidCase(case)
+        plan[exhaust] = ["rep"] * 40      # every reply of that step is lost, for ever
     sim = vworld.make_simulator(snap)
     eng = stepped.Engine()
     pol = _LossPolicy(plan, [int(x) for x in case.get("segs", [3])])
@@ -462,6 +470,28 @@ def _part_handshake(res, case):
         spa = stepped.make_threaded_spa(eng, sim)
         eng.policy = pol
         spa.start_connect()
+        if exhaust is not None:
+            from geckolib import GeckoConfig
+            n_retry, t_out = GeckoConfig.PROTOCOL_RETRY_COUNT, GeckoConfig.PROTOCOL_TIMEOUT_IN_SECONDS
+            t_stop = eng.vt.t + 4 * (n_retry + 1) * (t_out + 0.1) + 30.0     # all four steps could use their whole budget
+            try:
+                stepped.run_until(eng, lambda: eng.vt.t >= t_stop, max_iterations=60000)
+            except Exception as exc:  # noqa
+                is_lib, site = classify_exception(exc)
+                if not is_lib:
+                    raise
+                res.fail(f"C20|handshake|engine-died|{site}", f"{type(exc).__name__}: {exc} with step {exhaust} never answered")
+                return plan
+            if pol.requests[exhaust] != n_retry + 1:
+                res.fail(f"C20|handshake|exhaust|transmissions|{exhaust}", f"{exhaust} never answered: {pol.requests[exhaust]} transmissions, "
+                         f"1 + retry count {n_retry} expected")
+            cls_ = {"AVERS": "GeckoVersionProtocolHandler", "CURCH": "GeckoGetChannelProtocolHandler", "SFILE": "GeckoConfigFileProtocolHandler",
+                    "STATU": "GeckoStatusBlockProtocolHandler"}[exhaust]
+            left = [type(h).__name__ for h in spa._receive_handlers if type(h).__name__ == cls_]
+            if left:
+                res.fail(f"C20|handshake|exhaust|request-never-removed|{exhaust}", f"{exhaust} never answered: {int(eng.vt.t - (t_stop - 30.0)):d}s after the whole "
+                         f"retry budget the request handlers {left} are still registered (the connection stays busy for ever)")
+            return plan
         try:
             ok = stepped.run_until(eng, lambda: spa._is_connected and not eng.inbox and not spa._send_handlers, max_iterations=12000)
         except Exception as exc:  # noqa
@@ -512,6 +542,9 @@ def run_case(case) -> Result:
         res.label("handshake", f"handshake-lossy-steps-{lossy}")
         if any(len(v) >= 8 for v in plan.values()):
             res.label("handshake-near-retry-budget")
+        if case.get("exhaust"):
+            res.nontrivial = True
+            res.label("handshake-step-never-answered")
     else:
         raise InvalidCase(case)
     return res
